@@ -57,7 +57,7 @@ REQUIRED_PROBES = ['t==begin', 't==end-1', 't==end'] + \
      'second_hierarchy', 'foreign_witness_verified_under_own_root_first',
      'default_timestamp', 'crafted_witness', 'witness_with_code', 'witness_ending_in_return',
      'crafted_marker', 'chain_len_long', 'clock_read_failed', 'malleated_signature',
-     'transaction_changed_after_signing', 'lock_form_bytes', 'lock_form_resrc', 'lock_form_redec', 'explicit_limits'] + \
+     'transaction_changed_after_signing', 'recut_certificate', 'lock_form_bytes', 'lock_form_resrc', 'lock_form_redec', 'explicit_limits'] + \
     ['lock_wrapped_' + x for x in sorted(set(WRAPS) - {'none'})]
 NAMES = ['K', 'Kp'] + ['D%d' % i for i in range(1, 7)] + ['F%d' % i for i in range(1, 7)]
 FIELD_RANGE = {'key': (0, 32), 'begin': (32, 36), 'end': (36, 40), 'can': (40, 41),
@@ -179,6 +179,11 @@ def gen_step(rng, cell, clocks, vname, at_us, thr, fault_free):
         step['attack'] = {'kind': 'splice', 'cert': rng.below(ln)}
     elif a == 'foreign_witness':
         step['attack'] = {'kind': 'foreign_witness'}
+    elif a == 'crafted' and rng.chance(1, 4):
+        # the root key once signed, for another purpose, a message that *ends in* a
+        # certificate preimage naming the attacker's key; the attacker re-cuts that
+        # signature into an over-long "certificate"
+        step['attack'] = {'kind': 'recut', 'x': rng.bytes(rng.choice([1, 1, 9, 64])).hex()}
     elif a == 'crafted':
         # the attacker does not tamper with a builder's witness but composes one of his
         # own from observed material: valid certificates, the signature, markers, junk
@@ -632,6 +637,22 @@ def attack(items, atk, step, keys, run):
         else:
             items[0] = bytes(b)
         run.probe('field_flip_final_sig')
+    elif k == 'recut':
+        import nacl.bindings as nb
+        oroot = 'Kp' if step.get('root', 'K') == 'K' else 'K'
+        a_seed, a_pk = keys[oroot]
+        t = step['t'] if step['t'] is not None else 0
+        pre = a_pk + clampts(t - 10).to_bytes(4, 'big') + clampts(t + 1000).to_bytes(4, 'big') + b'\x00'
+        x = bytes.fromhex(atk['x'])
+        _, root_sk = nb.crypto_sign_seed_keypair(keys[step.get('root', 'K')][0])
+        sigma = nb.crypto_sign(x + pre, root_sk)[:64]      # what the root key did sign
+        blob = pre + sigma + x
+        sfv = {kk: bytes.fromhex(v) for kk, v in step['sigfields'].items()}
+        _, a_sk = nb.crypto_sign_seed_keypair(a_seed)
+        from ..oracle import sig_message
+        final = nb.crypto_sign(sig_message(sfv, 0), a_sk)[:64]
+        items = [final, blob] if not chainw else [final, b'\x00', blob]
+        run.probe('recut_certificate')
     elif k == 'marker' and chainw:
         items[cert_pos(atk['link']) - 1] = bytes.fromhex(atk['val'])
         run.probe('crafted_marker')
